@@ -1,1 +1,2 @@
 import AtsimModel.Driver.Pair
+import AtsimModel.Driver.Eam
